@@ -47,6 +47,9 @@ CLAIMED = {
     "C31": ("EFFECT-compare: mod-set of the value producers vs reset-set of setSeed per dynamic class, with a dead-under-guard table whose guards are checked",
             "Static decision of 'deterministic functions of their seed' (DESIGN section 3, C31): every generator field that producing values modifies is re-initialised by setSeed of the same class "
             "(which must call its base) or is unreadable until rewritten because setSeed resets its guard. Ranges, integer-mode bounds and statistics are not decided."),
+    "C26": ("HANDOUT fixed point (mutable access only after detach), EFFECT (detach/share/clone) and NOFLOW (copy operations never read the source payload) on the class-template patterns of the pointer wrappers",
+            "Static decision of the pointer-wrapper clauses of C26 (DESIGN section 3): every CloneOnWritePtr member that exposes mutable access or releases ownership detaches first; copies share/increment, detach clones exactly when shared; "
+            "ClonePtr copies clone; ReferencePtr/ResetOnCopy/ReinitOnCopy copy operations cannot carry the source's value. All of Array_/ArrayView_ (element order, exactly-once construction/destruction, growth) is value/heap semantics and NOT decided."),
 }
 NA = {
  "C01": "numerical identity between O(n) recursions; no clause is visible in the shape of the code",
